@@ -25,7 +25,7 @@ DESC_TIMEOUT = 1800
 
 
 def cases(tier, seed):
-    n = 10 if tier == 'quick' else 250
+    n = 24 if tier == 'quick' else 250
     per = 16
     return [{'seed': seed * 100003 + i, 'rooms': per} for i in range(n)] + \
         [{'seed': seed * 977 + i, 'matcher_streams': 400} for i in range(2 if tier == 'quick' else 40)]
